@@ -71,12 +71,22 @@ def run(ctx):
             ws = gen.gen_workspace(root, ctx.rng, venv=(i % 2 == 0))
             materialize(ws)
             db = vh.new_db()
-            call(ctx, vh, "scan", dict(op="scan", db=db, root=root))
+            via = root
+            if i % 2 == 1:
+                # the workspace and its documents are named through a symbolic link: every path that reaches the database
+                # exists, is absolute and is NOT canonical (the path-canonicalisation cache is exercised with 2 shards)
+                via = root.rstrip("/") + "_lnk"
+                os.symlink(root, via)
+                ctx.nontrivial(("sweep_through_symlinked_root",))
+            call(ctx, vh, "scan", dict(op="scan", db=db, root=via))
             call(ctx, vh, "snapshot", dict(op="snapshot", db=db))
             for rel in ws.workspace_py()[:6]:
-                call(ctx, vh, "analyze", dict(op="analyze", db=db, path=ws.abs(rel), text=ws.files[rel]))
+                call(ctx, vh, "analyze", dict(op="analyze", db=db, path=os.path.join(via, rel), text=ws.files[rel]))
                 call(ctx, vh, "queries", dict(op="queries", db=db))
-                call(ctx, vh, "close", dict(op="close", db=db, path=ws.abs(rel)))
+                call(ctx, vh, "available", dict(op="available", db=db, path=os.path.join(via, rel)))
+                call(ctx, vh, "close", dict(op="close", db=db, path=os.path.join(via, rel)))
+            if via != root:
+                os.unlink(via)
             vh.call(op="drop_db", db=db)
             shutil.rmtree(root, ignore_errors=True)
         # ---- more than MAX_FILE_CACHE_SIZE analysed files: the eviction path runs under the lock monitor -----------
@@ -169,7 +179,11 @@ def during_scan(ctx, i, log):
     gated = ctx.rng.choice(probes)
     env = {"VERIF_SHARDS": "2", "VERIF_DELAY": f"{ctx.seed + i}:150000", "VERIF_SCAN_GATE": gate,
            "VERIF_SCAN_GATE_MATCH": "/" + gated if "/" in gated else gated}
-    srv = LSP(srv_bin(), root, env=env, locklog=log)
+    srv_root = root
+    if i % 2 == 1:
+        srv_root = root.rstrip("/") + "_lnk"       # the client names the workspace through a symbolic link
+        os.symlink(root, srv_root)
+    srv = LSP(srv_bin(), srv_root, env=env, locklog=log)
     try:
         rec = srv.initialize(wait_scan=False)
         if not rec["answered"]:
